@@ -264,6 +264,25 @@ let eval_line (fields : string list) : (string * string) list =
      (* limit >= announced count: same as unlimited *)
      if int_of_string cnt <= int_of_string maxl && res_lim <> res_unlim then
        fail "oracle.C16" "limited decoding differs from unlimited decoding although count <= limit"
+   | ["decalloc"; ts; hex; cls; peak; largest; slot] ->
+     let t = ty_of_sexp (parse_sexp ts) in
+     let bs = bytes_of_hex hex in
+     let peak = int_of_string peak and largest = int_of_string largest and slot = int_of_string slot in
+     bump ("alloc." ^ cls);
+     if List.length bs >= 4 then nontrivial ();
+     let m = res_of_outcome (M.dec t bs) in
+     if class_of m <> cls then fail "corr.dec.class" ("model=" ^ class_of m);
+     if cls = "panic" then fail "oracle.C05" "decoding panicked";
+     let n = List.length bs in
+     let units = int_of_n (M.units t bs) in
+     let factor = int_of_n (M.ufactor t) in
+     (* heap bytes <= growth x element size x elements + a per-call constant (DESIGN.md, C06) *)
+     let budget u = 8 * slot * (u + 1) + 4096 in
+     if peak > budget units then
+       fail "corr.alloc" (Printf.sprintf "peak %d > budget %d of the model account (units=%d slot=%d)" peak (budget units) units slot);
+     if peak > budget (factor * n) || largest > budget (factor * n) then
+       fail "oracle.C06" (Printf.sprintf "peak %d / largest request %d exceed the linear bound %d (factor %d x %d bytes, slot %d)"
+                            peak largest (budget (factor * n)) factor n slot)
    | op :: _ -> nontrivial (); Ops_ext.eval fields fail bump op
    | [] -> ());
   !fails
